@@ -46,6 +46,8 @@ class WrappersDriver:
         self.result = None
         self.pool = None
         self.traced_obs = ("none", "none", "none")
+        self.warm = None
+        self.wrong_receiver = False
         self.VAL, self.ERR, self.BASE = Falsy("value"), Err("fn failed"), Base("fn base")
         self.AW = self.w.loop.create_future()      # an awaitable object returned as a plain value
         self.AW.set_result("what awaiting the returned object would give")
@@ -61,7 +63,8 @@ class WrappersDriver:
         on_loop = threading.get_ident() == self.loop_thread
         ok = (a, b, tuple(args), dict(kwargs)) == EXPECT[self.s["sig"]]
         label = w.metrics_label() if self.s["kind"].startswith("traced") else None
-        self.inside = (w.lookup("A"), "on_loop" if on_loop else "off_loop", "args_ok" if ok else f"args {a, b, args, kwargs}")
+        self.inside = (w.lookup("A"), "on_loop" if on_loop else "off_loop",
+                       "wrong receiver" if self.wrong_receiver else "args_ok" if ok else f"args {a, b, args, kwargs}")
         self.label_seen = label
         if self.s["sets"]:
             ctx.updated(interp.A(v=9)).__enter__()  # changes only the function's own (copied) context
@@ -110,12 +113,27 @@ class WrappersDriver:
                 deco = asynchronous(executor=self.pool)
 
             class Holder:
+                """receivers that are ==-equal and hash-equal but distinct objects (value objects)"""
+
+                def __eq__(self, other):
+                    return isinstance(other, Holder)
+
+                def __hash__(self):
+                    return 11
+
                 @deco
                 def m(self, a, b=2, *args, **kwargs):
                     """documented"""
+                    if drv.warm is not None:        # the method has been used through ANOTHER, equal instance before
+                        drv.warm.append(self)
+                        return "warm"
+                    if self is not drv.holder:
+                        drv.wrong_receiver = True
                     return drv._body(a, b, args, kwargs, True)
 
+            self.first_holder = Holder()
             self.holder = Holder()
+            self.warm_method = self.first_holder.m
             return self.holder.m, False
         if kind == "wrap_async_sync":
             return wrap_async(fn), False
@@ -164,6 +182,23 @@ class WrappersDriver:
                 except BaseException as e:  # noqa: BLE001
                     drv.result = ("exc", e)
 
+            if self.s["kind"] == "asynchronous_method":
+                # first use: the same method through the other, equal receiver (runs on the executor, returns at once)
+                self.warm = []
+
+                async def first():
+                    r = await self.warm_method(*cargs, **ckw)
+                    drv.warm.append(r)
+
+                w.do("1", "call", first)
+                for _ in range(60000):
+                    w.loop.quiesce()
+                    if w.status("1") != "busy":
+                        break
+                    real_wait(0.001)
+                if self.warm != [self.first_holder, "warm"]:
+                    self.wrong_receiver = True
+                self.warm = None
             w.do("1", "call", run)
             if self.s["kind"].startswith("asynchronous"):
                 self.started.wait(60)
